@@ -203,9 +203,26 @@ func (t *c11Plumb) isErrCheck(s ast.Stmt) bool {
 
 func (t *c11Plumb) stmts(l []ast.Stmt, holderVar, holderKey string) ([]string, error) {
 	var out []string
+	pendH, pendOk, pendKey := "", "", "" // h, ok := ctx.Value(K{}).(*internalState) seen, `if ok {…}` expected
 	for _, s := range l {
 		switch x := s.(type) {
 		case *ast.AssignStmt:
+			// h, ok := ctx.Value(K{}).(*internalState)   (the test of ok follows as a statement of its own)
+			if x.Tok == token.DEFINE && len(x.Lhs) == 2 && len(x.Rhs) == 1 && c11Ident(x.Lhs[0]) != "" && c11Ident(x.Lhs[1]) != "" && c11Ident(x.Lhs[1]) != "_" {
+				if ta, ok := x.Rhs[0].(*ast.TypeAssertExpr); ok && ta.Type != nil && c11Sq(ta.Type) == "*internalState" {
+					if call, ok := ta.X.(*ast.CallExpr); ok && c11Sq(call.Fun) == "ctx.Value" && len(call.Args) == 1 {
+						if k, ok := t.key(call.Args[0]); ok {
+							pendH, pendOk, pendKey = c11Ident(x.Lhs[0]), c11Ident(x.Lhs[1]), k
+							continue
+						}
+					}
+				}
+			}
+			// m := getStateModifier(ctx): the caller's modifier, as a nested graph finds it
+			if len(x.Rhs) == 1 && len(x.Lhs) == 1 && x.Tok == token.DEFINE && c11Sq(x.Rhs[0]) == "getStateModifier(ctx)" && c11Ident(x.Lhs[0]) != "" {
+				t.modVars[c11Ident(x.Lhs[0])] = true
+				continue
+			}
 			if len(x.Rhs) == 1 && len(x.Lhs) == 1 && c11Ident(x.Lhs[0]) == "ctx" && x.Tok == token.ASSIGN {
 				if p, ok := t.install(x.Rhs[0]); ok {
 					out = append(out, p)
@@ -244,6 +261,27 @@ func (t *c11Plumb) stmts(l []ast.Stmt, holderVar, holderKey string) ([]string, e
 				}
 			}
 		case *ast.IfStmt:
+			if pendOk != "" && x.Init == nil && x.Else == nil && c11Ident(x.Cond) == pendOk {
+				body, err := t.stmts(x.Body.List, pendH, pendKey)
+				if err != nil {
+					return nil, err
+				}
+				out = append(out, "PIf (PHolderInCtx "+pendKey+") "+c11List(body))
+				pendH, pendOk, pendKey = "", "", ""
+				continue
+			}
+			// if err := m(ctx, path, cp.State); err != nil { … }  =  err := m(…); if err != nil { … }
+			if as, ok := x.Init.(*ast.AssignStmt); ok && x.Else == nil && len(as.Rhs) == 1 && len(as.Lhs) == 1 {
+				if call, ok := as.Rhs[0].(*ast.CallExpr); ok && t.modVars[c11Ident(call.Fun)] &&
+					t.isErrCheck(&ast.IfStmt{Cond: x.Cond, Body: x.Body}) {
+					p, err := t.stmts([]ast.Stmt{as}, holderVar, holderKey)
+					if err != nil {
+						return nil, err
+					}
+					out = append(out, p...)
+					continue
+				}
+			}
 			if x.Else == nil {
 				// if h, ok := ctx.Value(K{}).(*internalState); ok { … }
 				if as, ok := x.Init.(*ast.AssignStmt); ok && as.Tok == token.DEFINE && len(as.Lhs) == 2 && len(as.Rhs) == 1 &&
@@ -531,7 +569,16 @@ func c11ExtractStatePlumb(repo string) (string, string, error) {
 		}
 		return nil
 	}
-	if err := visit(run.Body.List, false); err != nil {
+	grun := []string{"compose", "graph_run.go"}
+	runBody, inRun, err := c11Prepare(repo, grun, run, tr.mentions, c11NormOpts{mergeIfs: true})
+	if err != nil {
+		return "", "", tr.errf("%v", err)
+	}
+	helpers := map[string]int{}
+	for h, n := range inRun.inlined {
+		helpers[h] += n
+	}
+	if err := visit(runBody, false); err != nil {
 		return "", "", err
 	}
 	if start == nil {
@@ -540,7 +587,7 @@ func c11ExtractStatePlumb(repo string) (string, string, error) {
 	if len(resumes) != 2 || !underSub[0] || underSub[1] {
 		return "", "", tr.errf("%d blocks call r.restoreTasks, expected one under `if isSubGraph` and one for the top level", len(resumes))
 	}
-	if k, l := c11CountLits(run.Body); k != tr.keysUsed || l != tr.litsUsed {
+	if k, l := c11CountLits(&ast.BlockStmt{List: runBody}); k != tr.keysUsed || l != tr.litsUsed {
 		return "", "", tr.errf("%d stateKey{} / %d internalState{} literals, %d / %d translated", k, l, tr.keysUsed, tr.litsUsed)
 	}
 	// ---- the two interrupt handlers
@@ -551,11 +598,18 @@ func c11ExtractStatePlumb(repo string) (string, string, error) {
 			return "", "", fmt.Errorf("method runner.%s not found", name)
 		}
 		th := &c11Plumb{fn: "runner." + name, modVars: map[string]bool{}, runCtxOn: runCtxOn}
-		p, err := th.stmts(fn.Body.List, "", "")
+		hBody, inH, err := c11Prepare(repo, grun, fn, th.mentions, c11NormOpts{mergeIfs: true})
+		if err != nil {
+			return "", "", th.errf("%v", err)
+		}
+		for h, n := range inH.inlined {
+			helpers[h] += n
+		}
+		p, err := th.stmts(hBody, "", "")
 		if err != nil {
 			return "", "", err
 		}
-		if k, l := c11CountLits(fn.Body); k != th.keysUsed || l != th.litsUsed {
+		if k, l := c11CountLits(&ast.BlockStmt{List: hBody}); k != th.keysUsed || l != th.litsUsed {
 			return "", "", th.errf("%d stateKey{} / %d internalState{} literals, %d / %d translated", k, l, th.keysUsed, th.litsUsed)
 		}
 		saves = append(saves, p)
@@ -565,6 +619,25 @@ func c11ExtractStatePlumb(repo string) (string, string, error) {
 		"graph_run.go:handleInterruptWithSubGraphAndRerunNodes": true}
 	files, _ := filepath.Glob(filepath.Join(repo, "compose", "*.go"))
 	sort.Strings(files)
+	// a helper of graph_run.go whose body has been inlined at every one of its call sites is translated
+	for h, n := range helpers {
+		calls := 0
+		for _, p := range files {
+			base := filepath.Base(p)
+			if strings.HasSuffix(base, "_test.go") || strings.HasPrefix(base, "verif_") {
+				continue
+			}
+			f, err := c11ParseGo(fset, repo, "compose", base)
+			if err != nil {
+				return "", "", err
+			}
+			calls += c11CountCalls(f, h)
+		}
+		if calls != n {
+			return "", "", fmt.Errorf("graph_run.go: helper %s is called %d times, %d of the calls are in the translated blocks", h, calls, n)
+		}
+		translated["graph_run.go:"+h] = true
+	}
 	for _, p := range files {
 		base := filepath.Base(p)
 		if strings.HasSuffix(base, "_test.go") || strings.HasPrefix(base, "verif_") || base == "state.go" {
